@@ -68,3 +68,40 @@ Example ex_C01 :
                        CAnd [CLeaf (LCheck KRole (s "role") (s "b"));
                              CNot (CLeaf (LCheck KRole (s "role") (s "c")))]])).
 Proof. vm_compute. reflexivity. Qed.
+
+(* ---------- the lexical layer: any letter case, any whitespace, glued parentheses ---------- *)
+From OP Require Import Spec.Render Proofs.TokenizeProofs Proofs.ParseProofs.
+
+(* every rendering of a token sequence -- keywords in any letter case, any non-empty whitespace
+   (all 29 code points of \s) between lexemes, parentheses glued to what follows "(" or
+   precedes ")" -- tokenizes back to that sequence *)
+Theorem C01_tokenize_render (extra : list (str * kcls)) (lead : str) (ps : list (lexeme * str)) :
+  allws lead = true -> seps_ok ps = true ->
+  tokenize extra (render lead ps) = map (lex_token extra) (map fst ps).
+Proof. exact (tokenize_render extra lead ps). Qed.
+Print Assumptions C01_tokenize_render.
+
+(* end to end, from text to decision: any rendering of any sentence of the documented grammar
+   parses to the tree whose value is the documented one; in particular two renderings of the
+   same sentence (case, whitespace, glue) always decide alike *)
+Theorem C01_text_decision (extra : list (str * kcls)) (lead : str) (ps : list (lexeme * str))
+        (o : oexp leaf) (env : leaf -> bool) :
+  allws lead = true -> seps_ok ps = true -> render lead ps <> [] ->
+  map (lex_token extra) (map fst ps) = toks_o o ->
+  exists c, parse_text_rule extra (render lead ps) = PCheck c /\ beval env c = den_o env o.
+Proof.
+  intros Hl Hs Hne Ht. exists (tree (flat_o o)). split.
+  - apply sentence_parses; [exact Hne|].
+    rewrite (tokenize_render extra lead ps Hl Hs), Ht. apply toks_flatten.
+  - exact (C01_tree_meaning env o).
+Qed.
+Print Assumptions C01_text_decision.
+
+Example ex_C01_text :
+  let ps := [(XLp, []); (XWord (s "role:a"), s "  "); (XWord (s "oR"), [9%N]);
+             (XWord (s "NOT"), s " "); (XWord (s "role:b"), []); (XRp, s " ")] in
+  seps_ok ps = true /\
+  parse_text_rule [] (render (s " ") ps) =
+    PCheck (COr [CLeaf (LCheck KRole (s "role") (s "a"));
+                 CNot (CLeaf (LCheck KRole (s "role") (s "b")))]).
+Proof. vm_compute. split; reflexivity. Qed.
